@@ -138,6 +138,30 @@ Definition write_inplace (s : parent) (k nm : string) (p : Z) : parent * Z * Z :
   | None => append_new s k nm p
   end.
 
+(* ... the same call on an array whose data cgi_read_array loaded when the file was opened (array->data != NULL: every parent
+   except GridCoordinates_t, FlowSolution_t, Elements_t, ZoneSubRegion_t, DiscreteData_t, Particle*, UserDefinedData_t) while
+   cgi_array_general_write does not touch array->data (Gen_C04.general_write_mentions_cache = false): the node in the file
+   gets the new data, cg_array_read keeps answering from the copy *)
+Definition write_inplace_stale (s : parent) (k nm : string) (p : Z) : parent * Z * Z :=
+  let l := mget k (p_mir s) in
+  match find_slot nm l with
+  | Some i =>
+      match nth_error l i with
+      | None => (s, 1, 0)
+      | Some sl => (mkP (p_mir s) (file_upd (s_id sl) p (p_file s)) (p_next s), 0, Z.of_nat i + 1)
+      end
+  | None => append_new s k nm p
+  end.
+
+(* cg_link_write (cgnslib.c): cgio_create_link(posit_id, name, file, path) and (cg->added)++ -- NOTHING else: the link node is
+   appended to the parent's child list in the file (the database refuses a name that exists), no array of the session mirror
+   learns of it ("Need to fix this ... going to take a bit of work to keep the in-core information current").  The kind k
+   of the new child is the label the link resolves to (cgio_get_label follows links); its payload p is the IDENTITY of the
+   link -- the pair (file, path in file) cg_link_read reports, an opaque value here -- and never what lies behind it. *)
+Definition link_new (s : parent) (k nm : string) (p : Z) : parent * Z :=
+  if file_has nm (p_file s) then (s, 1)
+  else (mkP (p_mir s) (p_file s ++ [mkF (p_next s) k nm p]) (p_next s + 1), 0).
+
 (* CGNS_DELETE_SHIFT: name loop, free, shift down, count-- ; None = "Can't find node" *)
 Fixpoint remove_slot (nm : string) (l : list slot) : option (list slot) :=
   match l with
@@ -228,7 +252,10 @@ Fixpoint vindex (nm : string) (v : list (string * Z)) : option nat :=
   end.
 
 (* ---- histories *)
-Inductive op := OWrite (k nm : string) (p : Z) | OUpdate (k nm : string) (p : Z) | ODelete (nm : string) | OReopen.
+(* OLink = cg_link_write followed by cg_close + cg_open: the session shows a new link only after the file was read again
+   ([link_new] alone leaves the mirror behind the file: MirrorProofs.link_invisible_in_session) *)
+Inductive op := OWrite (k nm : string) (p : Z) | OUpdate (k nm : string) (p : Z) | ODelete (nm : string) | OReopen
+              | OLink (k nm : string) (p : Z).
 
 Definition step (sk : string -> bool) (disp : string -> string -> daction) (s : parent) (o : op) : parent * Z :=
   match o with
@@ -236,6 +263,7 @@ Definition step (sk : string -> bool) (disp : string -> string -> daction) (s : 
   | OUpdate k nm p => let '(s', st, _) := write_inplace s k nm p in (s', st)
   | ODelete nm => delete disp s nm
   | OReopen => (reopen sk s, 0)
+  | OLink k nm p => let '(s', st) := link_new s k nm p in (reopen sk s', st)
   end.
 
 Fixpoint run (sk : string -> bool) (disp : string -> string -> daction) (s : parent) (ops : list op) : parent * list Z :=
@@ -268,6 +296,7 @@ Definition i_step (t : ideal) (o : op) : ideal * Z :=
       end
   | ODelete nm => match i_get nm t with Some _ => (i_remove nm t, 0) | None => (t, 1) end
   | OReopen => (t, 0)
+  | OLink k nm p => match i_get nm t with Some _ => (t, 1) | None => (i_set nm (k, p) t, 0) end   (* never replaces a sibling *)
   end.
 Fixpoint i_run (t : ideal) (ops : list op) : ideal * list Z :=
   match ops with
@@ -294,7 +323,7 @@ Fixpoint hist_order_safe (sk : string -> bool) (disp : string -> string -> dacti
   end.
 
 Definition op_names_ok (kok nok : string -> bool) (o : op) : bool :=
-  match o with OWrite k nm _ | OUpdate k nm _ => kok k && nok nm | ODelete nm => nok nm | OReopen => true end.
+  match o with OWrite k nm _ | OUpdate k nm _ | OLink k nm _ => kok k && nok nm | ODelete nm => nok nm | OReopen => true end.
 
 (* ================================================================================================ PART B *)
 (* rows of the dispatcher of cg_delete_node as Gen_C04.v lists them *)
@@ -780,6 +809,67 @@ Definition expected_sort_calls : list string :=
   ["cgi_read_base: base -> nzones / sort_childnode_names"; "cgi_read_base: base -> npzones / sort_childnode_names"].
 Definition sorting_ok (calls : list string) (cmp : string) (callers : list string) : bool :=
   list_eqb calls expected_sort_calls && String.eqb cmp "return ( strcmp ( p1 -> name , p2 -> name ) )" && list_eqb callers [].
+
+(* ---- links.  cg_link_write as data: the labels its white list accepts, the functions it calls, the lvalues it changes.
+   [link_new] is its transcription only while it does what is listed here: create the link node, count it, touch no array. *)
+Definition expected_link_calls : list string :=
+  ["cgi_check_mode"; "cgi_posit_id"; "strcmp"; "cgi_error"; "printf"; "cgio_create_link"; "cg_io_error"].
+Fixpoint nodup_strings (l : list string) : bool :=
+  match l with [] => true | x :: r => negb (smem x r) && nodup_strings r end.
+Definition link_writer_ok (gt : list Goto.brow) (parents calls assigns : list string) : bool :=
+  list_eqb calls expected_link_calls && list_eqb assigns ["( cg -> added ) ++"] &&
+  forallb (fun l => smem l (all_positions gt)) parents && nodup_strings parents && Nat.leb 40 (List.length parents).
+(* the child labels cg_goto / cg_gorel accept below a position labelled pl (only there can cg_is_link be asked) *)
+Definition goto_children (gt : list Goto.brow) (pl : string) : list string :=
+  match Goto.find_block gt pl with
+  | Some (Goto.Block _ _ arms) =>
+      dedup (List.concat (map (fun a => match a with Goto.Arm cs _ => cs | Goto.UnparsedArm _ _ => [] end) arms))
+  | _ => []
+  end.
+(* cg_link_write at a position labelled pl: "Links not supported under '%s' type node" unless pl is on the white list *)
+Definition link_at (parents : list string) (pl : string) (s : parent) (k nm : string) (p : Z) : parent * Z :=
+  if smem pl parents then link_new s k nm p else (s, 1).
+Definition bad_link_parents (gt : list Goto.brow) (parents : list string) : list string :=
+  filter (fun l => negb (smem l (all_positions gt))) parents.
+
+(* the tree copy behind compress-on-close (cgns_io.c recurse_nodes, called by rewrite_file with follow_links = 0) and behind
+   cgio_copy_file: the condition under which a child that is a link is created again AS A LINK, over the three C variables
+   name_len (non-zero = the child is a link), file_len (zero = the link stays in this file) and follow_links *)
+Inductive bexp := BNe0 (x : string) | BEq0 (x : string) | BAnd (a b : bexp) | BOr (a b : bexp) | BNot (a : bexp)
+                | BUnparsed (why : string).
+Fixpoint beval (zero : string -> bool) (e : bexp) : bool :=
+  match e with
+  | BNe0 x => negb (zero x)
+  | BEq0 x => zero x
+  | BAnd a b => beval zero a && beval zero b
+  | BOr a b => beval zero a || beval zero b
+  | BNot a => negb (beval zero a)
+  | BUnparsed _ => false
+  end.
+Fixpoint bexp_vars (e : bexp) : list string :=
+  match e with
+  | BNe0 x | BEq0 x => [x]
+  | BAnd a b | BOr a b => bexp_vars a ++ bexp_vars b
+  | BNot a => bexp_vars a
+  | BUnparsed w => ["UNPARSED"]
+  end.
+(* is the variable zero?  for a child that is / is not a link, into this / another file, with follow_links set or not *)
+Definition copy_env (is_link same_file follow : bool) (x : string) : bool :=
+  if String.eqb x "name_len" then negb is_link
+  else if String.eqb x "file_len" then same_file
+  else if String.eqb x "follow_links" then negb follow
+  else false.
+Definition expected_copy_callers : list string :=
+  ["recurse_nodes: follow_links"; "rewrite_file: 0"; "cgio_copy_file: follow_links"].
+Definition copy_keeps_links (g : bexp) (else_recurses : bool) (callers : list string) : bool :=
+  forallb (fun x => smem x ["name_len"; "file_len"; "follow_links"]) (bexp_vars g) && else_recurses &&
+  (* compress (follow_links = 0): EVERY link -- into this file or another -- is created again as a link *)
+  beval (copy_env true true false) g && beval (copy_env true false false) g &&
+  (* following links: a link inside the file stays a link, a link into another file is expanded *)
+  beval (copy_env true true true) g && negb (beval (copy_env true false true) g) &&
+  (* a child that is no link is never turned into one *)
+  forallb (fun sf => forallb (fun fo => negb (beval (copy_env false sf fo) g)) [true; false]) [true; false] &&
+  list_eqb callers expected_copy_callers.
 
 (* diagnostics for the report *)
 Definition bad_dblocks (ss : Goto.structs_t) (fs : list (string * string)) (nd : list ndrow) (gt : list Goto.brow)
